@@ -123,7 +123,7 @@ def generate(tier, rng):
     if which == 0:
       ds[pos][0] = 1
     elif which == 1:
-      ds[pos][1] = rng.choice([1, 2])
+      ds[pos][1] = rng.choice([1, 2, 3])
     else:
       ds[pos][0], ds[pos][1] = 1, 1
     if rng.randrange(4) == 0:   # whole stream on other ids, still consistent among the rest
@@ -195,6 +195,8 @@ def _examples(base, n, feat, flip):
     ex['y'] = g.astype(np.float32)
   if feat == 2:
     del ex['v']
+  if feat == 3:     # same number of features, another name
+    ex['w'] = ex.pop('v')
   if flip:
     ex = dict(reversed(list(ex.items())))
   return ex
